@@ -30,8 +30,10 @@ impl PoolCfg {
     pub fn for_tier(t: Tier) -> Self {
         PoolCfg {
             nshards: std::thread::available_parallelism().map(|n| n.get() as u64).unwrap_or(8).min(16),
-            batch_timeout: Duration::from_secs(if t == Tier::Quick { 20 } else { 90 }),
-            case_timeout: Duration::from_secs(if t == Tier::Quick { 5 } else { 20 }),
+            // a worker announces a case at least once per second; a single case that takes longer than
+            // this is a hang (the slowest legitimate cases take about a second on an idle machine)
+            batch_timeout: Duration::from_secs(if t == Tier::Quick { 30 } else { 120 }),
+            case_timeout: Duration::from_secs(if t == Tier::Quick { 30 } else { 120 }),
             max_deaths: 3,
             rlimit_as: 8 << 30,
             extra_args: Vec::new(),
